@@ -84,7 +84,8 @@ class AxisReduction:
             img_arr = np.sum(img.img, axis=self.index)
 
             if self.mode == "average":
-                img_arr /= img.img.shape[self.index]
+                # NOTE: No in-place division - the average of integer data is a float.
+                img_arr = img_arr / img.img.shape[self.index]
             elif self.mode == "sum":
                 pass
         elif self.mode == "slice":
